@@ -208,6 +208,7 @@ class Fold:
         self.events = []
         self.spec = spec
         self.misaligned = []
+        self.bind = {}        # decoded header fields given a CONCRETE value in this fold (e.g. npart = 0: a file without particles)
 
     def unpack(self, fmt, data):
         if not isinstance(data, Bytes):
@@ -247,7 +248,9 @@ class Fold:
         if isinstance(count, int) and count <= 8:
             out = []
             for k in range(count):
-                if names and k < len(names) and re.fullmatch(r"[A-Za-z_][A-Za-z_0-9]*", names[k]):
+                if names and k < len(names) and names[k] in self.bind:
+                    out.append(self.bind[names[k]])
+                elif names and k < len(names) and re.fullmatch(r"[A-Za-z_][A-Za-z_0-9]*", names[k]):
                     out.append(si(names[k]))
                 else:
                     out.append(si("field<%s#%d@%s>" % (ev.record or "?", k, len(self.events))))
@@ -997,12 +1000,12 @@ def check_conditions_contract(run, tree):
 PART = "io/part.py::PartReader"
 
 
-def part_spec(variables, tag=""):
+def part_spec(variables, tag="", npart=None):
     recs = list(L.PART_HEADER_FIXED)
     for nm in L.PART_OPAQUE:
         recs.append((nm, "b", Poly.sym("len_%s%s" % (nm, tag)), Poly.const(1)))
     for vn, (read, ty) in variables.items():
-        recs.append(("var:" + vn, ty, Poly.sym("npart"), Poly.const(1)))
+        recs.append(("var:" + vn, ty, Poly.sym("npart") if npart is None else Poly.const(npart), Poly.const(1)))
     return recs
 
 
@@ -1071,6 +1074,31 @@ def check_part_header(run, tree, only_read_vs_skip=False, variables=None, tag=""
                "rows of one particle come from different particles (a variable misses a file's piece or overwrites it), or values carry another variable's unit")
     except ERR as e:
         run.unresolved(construct, m.where(), "cannot fold: %s" % e)
+    # a file WITHOUT particles (npart = 0: a cpu whose domain holds none): every selected variable still gains its (empty) piece, so that
+    # the group has the same columns whichever files were read, and the records are stepped over
+    if not only_read_vs_skip:
+        try:
+            fold = Fold(FileSpec(part_spec(variables, npart=0)))
+            fold.bind = {"npart": SI(Poly.const(0))}
+            hooks = layout_hooks(fold)
+            ci, r = new_reader(tree, PART, hooks, variables)
+            info = base_info()
+            try:
+                call(tree, hooks, ci, r, "read_header", info)
+                vars_ = r._attrs["variables"]
+                missing = [vn for vn, (read, ty) in variables.items() if read and list(vars_[vn]["pieces"]) != [0]]
+                end = position(r._attrs["offsets"])
+                probs = []
+                if missing:
+                    probs.append("variables %s have no piece after a file without particles (required an empty piece each)" % missing)
+                if not (end == fold.spec.end):
+                    probs.append("the file position ends at %r, RAMSES writes %r" % (end, fold.spec.end))
+                run.ob(construct + "::file-without-particles", not probs, m.where(), "; ".join(probs) or "every selected variable gains an empty piece; the records are stepped over",
+                       "load(cpu_list=[k]) for a cpu that owns no particle returns a particle group WITHOUT columns instead of zero-length columns")
+            except (Raised, ProgramRaised) as e:
+                run.violated(construct + "::file-without-particles", m.where(), "raises %s" % e, "a particle file with npart = 0")
+        except ERR as e:
+            run.unresolved(construct + "::file-without-particles", m.where(), "cannot fold: %s" % e)
     # an uninitialised particle reader reads nothing
     try:
         fold = Fold(None)
